@@ -157,6 +157,10 @@ pub fn check(case: &Case, st: &mut Stats) -> Result<(), String> {
             (PolicyKind::Map(m), Some(NTok::Tag { end: false, name, .. })) => {
                 m.iter().any(|(n, a)| n == name && *a == Action::Script)
             },
+            // map keys "/name" answer end tags
+            (PolicyKind::Map(m), Some(NTok::Tag { end: true, name, .. })) => {
+                m.iter().any(|(n, a)| n.strip_prefix('/') == Some(name.as_str()) && *a == Action::Script)
+            },
             _ => false,
         };
         if !ok {
